@@ -18,7 +18,7 @@ RULE = ("kernel cases = (loop nest of depth 1-3: per level a source {fiber, a&b,
         "pre-populated outputs, declared trace set, thresholds subset of {2,3,5,1000}, default 0 or 7); small scope: "
         "every depth-1 form x all pairs of leaf fibers over 2 (quick) / 3 (thorough) coordinates x {absent, explicit "
         "default, value} x 4 trace sets, depth-2/3 templates (SpMV, reductions, Gustavson, inner/outer product, "
-        "copy, dense iterShapeRef() outer loops) on seeded random trees, populate destination ranks in format C or U, input ranks of format U (declared / estimated extents, tensor-owned and unowned fibers), multi-digit coordinates, float values and defaults, stale trace files of the previous session, a non-ticking walk of lazy unions of all operand fibers before the nest in every other case, loop ranks with flattened 2-tuple coordinates (associateShape), lazy operands built before beginCollect in every other case, a lazy fiber built inside and iterated after the collection; api cases = seeded random Metrics call sequences (nest-shaped with "
+        "copy, dense iterShapeRef() outer loops, a union next to labelled operators: (a | b) & (a & b), plain and under z <<) on seeded random trees, populate destination ranks in format C or U, input ranks of format U (declared / estimated extents, tensor-owned and unowned fibers), multi-digit coordinates, float values and defaults, stale trace files of the previous session, a non-ticking walk of lazy unions of all operand fibers before the nest in every other case, loop ranks with flattened 2-tuple coordinates (associateShape), lazy operands built before beginCollect in every other case, a lazy fiber built inside and iterated after the collection; api cases = seeded random Metrics call sequences (nest-shaped with "
         "perturbations: late/duplicate declarations, double matches, uses on unregistered ranks, interleaved "
         "consumeTrace). non-trivial = a traced file with >= 2 data rows (kernel) / a flush or a consume happened (api)")
 
@@ -83,7 +83,7 @@ def candidate_keys(levels):
     for lv in levels:
         r = lv["rank"]
         keys.append([r, "iter"])
-        for i in range(4):
+        for i in range(8):
             keys.append([r, f"intersect_{i}"])
         keys += [[r, "populate_1"], [r, "populate_read_0"], [r, "populate_write_0"]]
         if lv["src"]["kind"] == "proj":
@@ -103,6 +103,8 @@ def relevant_keys(levels):
             keys += [[r, "populate_1"], [r, "populate_read_0"], [r, "populate_write_0"]]
         if s["kind"] in ("and", "lf"):
             keys += [[r, f"intersect_{l0}"], [r, f"intersect_{l0 + 1}"]]
+        if s["kind"] == "orand":
+            keys += [[r, f"intersect_{l0 + i}"] for i in (0, 1, 2, 3, 4, 5)]
         if s["kind"] == "proj":
             keys.append([s["srcRank"], f"project_{0 if s.get('own') else l0}"])
     return keys
@@ -165,6 +167,8 @@ DEPTH1_FORMS = [
     ("pop", lambda: [_level("K", _src("fiber", 0), True)]),
     ("pop-and", lambda: [_level("K", _src("and", 0, 1), True)]),
     ("pop-lf", lambda: [_level("K", _src("lf", 0, 1), True)]),
+    ("orand", lambda: [_level("K", _src("orand", 0, 1))]),
+    ("pop-orand", lambda: [_level("K", _src("orand", 0, 1), True)]),
     ("proj", lambda: [_level("W", _src("proj", 0, srcRank="K", off=2, lo=None, hi=None))]),
     ("proj-int", lambda: [_level("W", _src("proj", 0, srcRank="K", off=1, lo=2, hi=3))]),
     ("pop-proj", lambda: [_level("W", _src("proj", 0, srcRank="K", off=2, lo=None, hi=None), True)]),
@@ -195,6 +199,8 @@ TEMPLATES = {
     "flat-outer3": lambda: [_level("M", _src("fiber", 0), tuple_k=2), _level("K", _src("and", 0, 1), tuple_k=2), _level("N", _src("fiber", 1), True)],
     "u-outer": lambda: [_level("M", _src("fiber", 0)), _level("K", _src("fiber", 0))],
     "u-outer-and": lambda: [_level("M", _src("fiber", 0)), _level("K", _src("and", 0, 1))],
+    "orand-inner": lambda: [_level("M", _src("fiber", 0)), _level("K", _src("orand", 0, 1))],
+    "orand-pop3": lambda: [_level("M", _src("fiber", 0), True), _level("K", _src("orand", 0, 1)), _level("N", _src("fiber", 1), True)],
     "lf3": lambda: [_level("M", _src("fiber", 0)), _level("K", _src("lf", 0, 1)), _level("N", _src("fiber", 1), True)],
 }
 
@@ -290,14 +296,14 @@ def _rand_case(rng, levels, n, dflt, tmode=None, zmode=None, prematch=True, thre
             zt = H.gen_tree(rng, dz, n + 3, pool, dflt)
         z = {"d": dz, "tree": zt, "shape": shape}
     for lv in levels:
-        if (not lv["pop"] and lv["src"]["kind"] in ("fiber", "and", "lf") and "tuple" not in lv
+        if (not lv["pop"] and lv["src"]["kind"] in ("fiber", "and", "lf", "orand") and "tuple" not in lv
                 and rng.random() < 0.15):
             lv["tuple"] = rng.choice([2, 3])
     add_u_ranks(rng, levels, ops, n)
     for o in ops:
         if o["d"] == 1 and rng.random() < 0.3:
             o["free"] = True              # an unowned fiber carrying its own rank attributes (id, format, shape)
-    plain = all(lv["src"]["kind"] in ("fiber", "and", "lf") and "tuple" not in lv and "u" not in lv
+    plain = all(lv["src"]["kind"] in ("fiber", "and", "lf", "orand") and "tuple" not in lv and "u" not in lv
                 for lv in levels) and not any("shape" in o for o in ops)
     if plain and rng.random() < 0.25:
         # multi-digit coordinates (9 / 10 / 100 boundaries)
@@ -334,7 +340,7 @@ def gen_kernels(seed, tier):
     fibs = list(H.all_leaf_fibers(n, [0, 3]))
     k = 0
     for name, mk in DEPTH1_FORMS:
-        two = mk()[0]["src"]["kind"] in ("and", "lf")
+        two = mk()[0]["src"]["kind"] in ("and", "lf", "orand")
         pop = mk()[0]["pop"]
         for a in fibs:
             for b in (fibs if two else [None]):
@@ -344,6 +350,8 @@ def gen_kernels(seed, tier):
                 for zt in zs:
                     for tmode in TRACE_SETS if pop else ["all"]:
                         k += 1
+                        if tier == "quick" and name in ("orand", "pop-orand", "pop-lf", "pop-and") and k % 2:
+                            continue
                         levels = mk()
                         ops = _mk_ops(levels, [a, b])
                         z = {"d": 1, "tree": zt, "shape": [n + 4]} if pop else None
@@ -360,13 +368,13 @@ def gen_kernels(seed, tier):
         lv0 = mk()[0]
         if lv0["src"]["kind"] in ("dense",) or (lv0["src"]["kind"] == "proj" and not lv0["pop"]):
             continue
-        two = lv0["src"]["kind"] in ("and", "lf")
+        two = lv0["src"]["kind"] in ("and", "lf", "orand")
         for a in fibs:
             for b in (fibs if two else [None]):
                 for us in ([[0], [1], [0, 1]] if two else [[0]]):
                     for decl in (False, True):
                         k += 1
-                        if tier == "quick" and two and k % 2:
+                        if tier == "quick" and two and k % 3:
                             continue
                         levels = mk()
                         levels[0]["u"] = us
@@ -378,14 +386,14 @@ def gen_kernels(seed, tier):
                         yield finish_case(levels, ops, z, pick_traced(levels, "all"), [2, 1000], 0, prematch=True)
     # ---- the late-match composite projection (expected to assert when its trace is declared)
     for a in fibs[:6]:
-        levels = DEPTH1_FORMS[8][1]()
+        levels = dict(DEPTH1_FORMS)["pop-proj"]()
         yield finish_case(levels, _mk_ops(levels, [a, None]), {"d": 1, "tree": [], "shape": [n + 4]},
                           pick_traced(levels, "all") + [["K", "project_0"]], [2, 1000], 0, prematch=False)
-        levels = DEPTH1_FORMS[8][1]()
+        levels = dict(DEPTH1_FORMS)["pop-proj"]()
         yield finish_case(levels, _mk_ops(levels, [a, None]), {"d": 1, "tree": [], "shape": [n + 4]},
                           [["W", "iter"], ["W", "populate_1"]], [2, 1000], 0, prematch=False)
     # ---- templates and random nests on random trees
-    nrand = 3000 if tier == "quick" else 60000
+    nrand = 2400 if tier == "quick" else 60000
     names = sorted(TEMPLATES)
     for i in range(nrand):
         dflt = rng.choice([0, 0, 0, 7])
@@ -416,7 +424,7 @@ def random_levels(rng):
     for i in range(D):
         xs = [x for x in (0, 1) if part[x][i]]
         if len(xs) == 2:
-            kind = rng.choice(["and", "and", "lf"])
+            kind = rng.choice(["and", "and", "lf", "orand"])
             if rng.random() < 0.5:
                 xs = xs[::-1]
             src = _src(kind, xs[0], xs[1])
@@ -442,7 +450,7 @@ TYPES = ["iter", "t1"]
 
 def gen_api(seed, tier):
     rng = random.Random(seed * 104729 + 61)
-    n = 2500 if tier == "quick" else 40000
+    n = 1800 if tier == "quick" else 40000
     for _ in range(n):
         evs = []
         ranks = RANKS[:rng.choice([1, 2, 3])]
@@ -691,6 +699,9 @@ def _build_expr(ft, lv, ops, z):
         expr = ft.Fiber.intersection(ops[s["x"]], ops[s["y"]], style="leader-follower")
     elif kind == "dense":
         expr = ops[s["x"]].iterShapeRef()
+    elif kind == "orand":
+        # a union next to labelled operators at the same rank: (a | b) & (a & b)
+        expr = (ops[s["x"]] | ops[s["y"]]) & (ops[s["x"]] & ops[s["y"]])
     else:
         off = s["off"]
         interval = None if s["lo"] is None else (s["lo"], s["hi"])
@@ -733,7 +744,10 @@ def _exec_nest(ft, levels, ops, z, i, spy=None, pre=None, poll=None):
         if lv["pop"]:
             z2, p = p
         ops2 = list(ops)
-        if kind in ("and", "lf"):
+        if kind == "orand":
+            _union_part, inner = p
+            ops2[s["x"]], ops2[s["y"]] = inner
+        elif kind in ("and", "lf"):
             ops2[s["x"]], ops2[s["y"]] = p
         else:
             ops2[s["x"]] = p
